@@ -1,4 +1,5 @@
 import ArgMapper.Props.C01
+import ArgMapper.Proofs.CallGraphFuncs
 /-!
 # C01 (completion) — discharging the structural hypotheses of `injection_sound_partial`
 
@@ -28,19 +29,28 @@ def stdCtx (e : TypeEnv) (b : Builder) (funcs : Nat → Option FuncDesc) (target
 
 /-- value sets built by the model of `NewFunc` are well keyed -/
 theorem newFunc_keysOK (ins outs : List Param) (fs : FuncSig) (h : newFunc ins outs = .ok fs) :
-    ValueSet.KeysOK fs.input ∧ ValueSet.KeysOK fs.output := by
-  sorry
+    ValueSet.KeysOK fs.input ∧ ValueSet.KeysOK fs.output :=
+  CGF.newFunc_keysOK h
 
 /-- in a `Call` graph (not redefining) no typed-argument vertex hangs off the root -/
 theorem callGraph_no_arg_root (e : TypeEnv) (b : Builder) (funcs : Nat → Option FuncDesc)
     (target : FuncDesc) (filter : Option Filter) (t : Nat) (s : String) :
     (callGraph {} e b funcs target false filter).cg.g.hasEdge (.arg t s) .root = false := by
-  sorry
+  cases h : (callGraph {} e b funcs target false filter).cg.g.hasEdge (.arg t s) .root with
+  | false => rfl
+  | true => exact absurd (CGF.ginv_callGraph {} e b funcs target filter _ _ h) (by simp [CGF.EdgeP, Vtx.isArg])
 
 theorem stdCtx_funcsOK (e : TypeEnv) (b : Builder) (funcs : Nat → Option FuncDesc) (target : FuncDesc)
     (beh : Nat → Nat → List PVal → BehOut) (hc : FuncsConsistent (allFuncs b funcs target)) :
     FuncsOK (stdCtx e b funcs target beh) := by
-  sorry
+  intro k f hfo
+  simp only [stdCtx] at hfo ⊢
+  exact CGF.funcsOK_of_edgeP (b.convs.filterMap funcs) (allFuncs b funcs target)
+    (callGraph {} e b funcs target false none).cg.g
+    (CGF.ginv_callGraph {} e b funcs target none)
+    (fun f hf => List.mem_cons_of_mem _ hf)
+    (fun f hf f' hf' hk => (hc.1 f hf f' hf' hk).2)
+    (fun f hf => (hc.2 f hf).2) k f hfo
 
 /-- **C01_injection_sound** (all structural hypotheses discharged) — for every type environment with a
 transitive, antisymmetric `Implements`, every set of supplied values and converters, every target,
@@ -55,6 +65,15 @@ theorem injection_sound (e : TypeEnv) (ht : ImplTrans e) (ha : ImplAntisym e)
     ∀ ev ∈ (callWith (stdCtx e b funcs target beh) (callGraph {} e b funcs target false none) target fuel
               (initSt (callGraph {} e b funcs target false none).cg memo orc)).2.log,
       ArgsOK e ev := by
-  sorry
+  have henv : (stdCtx e b funcs target beh).env = e := rfl
+  have hcg : (stdCtx e b funcs target beh).g = (callGraph {} e b funcs target false none).cg.g := by
+    simp only [stdCtx]
+  have hnar : ∀ t s, (stdCtx e b funcs target beh).g.hasEdge (.arg t s) .root = false := by
+    intro t s
+    rw [hcg]
+    exact callGraph_no_arg_root e b funcs target none t s
+  exact injection_sound_partial e ht ha b funcs target (stdCtx e b funcs target beh) henv hcg
+    (stdCtx_funcsOK e b funcs target beh hc) hnar
+    (callGraph_store_origin e b funcs target false none) fuel memo orc
 
 end ArgMapper.C01
